@@ -596,14 +596,20 @@ def check_C20(chk):
 def gen_timed(rng, n):
     """sequence of operations with, for every receive, the model op (mode, state when it looks, what happens during the wait)"""
     ops, model, expect, meta = [], [], [], []
-    q, alive = 0, True
+    q, alive = [], True      # q: the queued messages, True = a message the receiver's type cannot decode
     for _ in range(n):
         r = rng.random()
         state = "QMsg" if q else ("QIdle" if alive else "QDead")
         if r < 0.25 and alive:
             L = rng.choice([10, 10, 3000, 9000])
-            ops.append("s%d" % L)
-            q += 1
+            if rng.random() < 0.15:
+                # a complete message whose encoding is shorter than the receiver's type needs: every receive variant must hand
+                # out the decoding error - in particular not 'empty', and not before/after any waiting
+                ops.append("x")
+                q.append(True)
+            else:
+                ops.append("s%d" % L)
+                q.append(False)
             continue
         if r < 0.3 and alive:
             ops.append("d")
@@ -638,8 +644,7 @@ def gen_timed(rng, n):
         else:
             continue
         if state == "QMsg":
-            expect.append("OMsg")
-            q -= 1
+            expect.append("OError" if q.pop(0) else "OMsg")
         elif state == "QMsgLater":
             expect.append("OMsg")
         elif state == "HupLater":
@@ -729,7 +734,9 @@ def check_C10(chk):
                     calls.append("CPoll (%d) %s" % (r["timeout"], "true" if r["res"] > 0 else "false"))
                 elif r["call"] == "recvmsg":
                     calls.append("CRecvmsg %s" % ("true" if calls and calls[-1] == "CSetfl true" else "false"))
-            todo.append((k, "check_timed [%s] [%s] [%s]" % ("; ".join(c["model"]), "; ".join(x["out"] for x in rec["results"]), "; ".join(calls))))
+            # the model speaks about the transport: an undecodable message is a message taken from the queue
+            outs = ["OMsg" if (x["out"] == "OError" and e == "OError") else x["out"] for x, e in zip(rec["results"], c["expect"])]
+            todo.append((k, "check_timed [%s] [%s] [%s]" % ("; ".join(c["model"]), "; ".join(outs), "; ".join(calls))))
     for c, rec, fl, why in fails[:8]:
         chk.failing_input(why, {"build": fl, "sequence": ",".join(c["ops"]), "observed": rec and rec["results"]}, key="%s:%s" % (fl, ",".join(c["ops"])))
     header = "From Coq Require Import ZArith List Bool.\nFrom IPC Require Import Timed TimedCheck.\nImport ListNotations.\nOpen Scope Z_scope.\n"
@@ -741,7 +748,7 @@ def check_C10(chk):
     cov["distinct_nontrivial"] = len({",".join(c["ops"]) for c, r, t, f in items if any(o[0] in "TBWH" for o in c["ops"])})
     cov["correspondence_mismatches"] = len(bad)
     cov["rule"] = ("timed driver: sequences of 4..14 operations mixing recv / try_recv / try_recv_timeout(d) with d in {0, 300 us, 900 us, 1 ms, 1.5 ms, 5 ms, 20 ms, 60 ms, "
-                   "> i32::MAX ms (only with something to return)} against a sender that sends (small and multi-packet) or drops before the call, or - from another thread - "
+                   "> i32::MAX ms (only with something to return)} against a sender that sends (small, multi-packet, and complete messages the receiver's type cannot decode) or drops before the call, or - from another thread - "
                    "20-25 ms into a blocking or timed wait; outcomes against the state table, elapsed time (at least floor(d) ms before 'empty', early return on arrival / "
                    "hang-up, a blocking recv after an 'empty' really waits); on the OS transport the F_SETFL pairing and the poll timeout argument of every call are "
                    "compared with Timed.run; in-process build: outcomes and timing only; non-trivial = sequences with a timed or blocking receive")
